@@ -150,4 +150,17 @@ theorem run_reach {cfg : Cfg} {ga : Nat → Int} {s s' : S} {l : List (Tid × Ac
     · next s1 h1 => exact ih (Reach.step s s1 t a hs (stepFn_sound h1)) h
     · cases h
 
+/-- decidable form: a schedule that `run` accepts from `init` ends in a reachable state -/
+theorem run_reach' {cfg : Cfg} {ga : Nat → Int} {l : List (Tid × Act)}
+    (h : (run cfg ga init l).isSome = true) : Reach cfg ga ((run cfg ga init l).getD init) := by
+  cases hr : run cfg ga init l with
+  | none => simp [hr] at h
+  | some s' => exact run_reach Reach.init hr
+
+theorem stepFn_sound' {cfg : Cfg} {ga : Nat → Int} {s : S} {t : Tid} {a : Act}
+    (h : (stepFn cfg ga s t a).isSome = true) : Step cfg ga s t a ((stepFn cfg ga s t a).getD init) := by
+  cases hr : stepFn cfg ga s t a with
+  | none => simp [hr] at h
+  | some s' => exact stepFn_sound hr
+
 end UsualProofs.C20
